@@ -993,8 +993,8 @@ def obligations(tier):
         "symbolic bytes, exact length n per slice")
     wit("rle", "h_rle_w", [{"n": 2}])
     if not quick:
-        add("rle_long", "h_rle_long", [{"na": 1, "nb": 1, "zi": zi} for zi in (1, 2, 5)] + [{"na": 0, "nb": 0, "zi": zi} for zi in range(7)],
-            "zero runs of 254..765 bytes (the >255 splitting), for 255/256/511 between two symbolic bytes", "run length by concrete slice (enumeration)",
+        add("rle_long", "h_rle_long", [{"na": 1, "nb": 1, "zi": zi} for zi in (1, 2)] + [{"na": 0, "nb": 0, "zi": zi} for zi in range(7)],
+            "zero runs of 254..765 bytes (the >255 splitting), for 255/256 between two symbolic bytes", "run length by concrete slice (enumeration)",
             budget=1200, pp=400)
     add("find_insert", "h_find_insert", [{"nl": nl, "nq": nq, "keyed": kd} for nl in range(0, 4) for nq in (1, 2) for kd in (False, True)],
         "find_or_insert: index addresses the item, earlier entries never move, no duplicate appended", "pool of 3 objects, list <= 3, 2 queries")
